@@ -1,27 +1,447 @@
 package sim
 
 import (
+	"bufio"
+	"encoding/json"
+	"flag"
 	"fmt"
 	"os"
+	"os/exec"
+	"path/filepath"
+	"sort"
+	"strings"
+	"sync"
+	"time"
 )
 
-// RunSpecial dispatches the checks that are not single-world runs of the main engine (C13, C14 parts, C18, C19).
+// RunSpecial dispatches the checks that are not plain single-world batches of the main engine.
 func RunSpecial(args []string) int {
 	if len(args) == 0 {
 		fmt.Fprintln(os.Stderr, "usage: archesim special <name> ...")
 		return 2
 	}
 	switch args[0] {
-	case "digest":
-		return specialDigest(args[1:])
+	case "C13":
+		return specialC13(args[1:])
+	case "digests":
+		return specialDigests(args[1:])
+	case "C19":
+		return specialC19(args[1:])
+	case "c19worker":
+		return c19Worker(args[1:])
+	case "c19race":
+		return c19Race(args[1:])
+	case "C14":
+		return specialC14(args[1:])
+	case "C18":
+		return specialC18(args[1:])
 	}
 	fmt.Fprintln(os.Stderr, "unknown special", args[0])
 	return 2
 }
 
+// ---------------------------------------------------------------------------------------------------------
+// C13: determinism. The same trace is executed in several fresh OS processes (new map seeds, new addresses,
+// GOMAXPROCS 1/4/16, different GOGC) with GC forced at different points (independent gc stream), and twice in
+// each process. The digest of everything observable must be identical.
+// ---------------------------------------------------------------------------------------------------------
+
+// applyGCVariant re-draws the GC placement of a trace from an independent stream. Variant 0 = no forced GC.
+func applyGCVariant(tr *Trace, variant int) {
+	for i := range tr.Steps {
+		tr.Steps[i].GC = 0
+	}
+	if variant == 0 {
+		return
+	}
+	g := NewRng(tr.Seed, uint64(StreamGC+variant))
+	permille := []int{0, 60, 200, 500}[variant%4]
+	for i := range tr.Steps {
+		if g.Bool(permille) {
+			switch g.Intn(4) {
+			case 0:
+				tr.Steps[i].GC = 1
+			case 1:
+				tr.Steps[i].GC = 2
+			default:
+				tr.Steps[i].GC = 3 + g.Intn(12)
+			}
+		}
+	}
+}
+
+type digestLine struct {
+	K       int    `json:"k"`
+	Seed    uint64 `json:"seed"`
+	D       uint64 `json:"d"`
+	D2      uint64 `json:"d2"` // second in-process execution
+	Class   string `json:"class,omitempty"`
+	Struct  int    `json:"struct"`
+	Steps   int    `json:"steps"`
+	GCs     int    `json:"gcs"`
+	Shape   uint64 `json:"shape"`
+	Targets int    `json:"targets"`
+}
+
+func traceFor(prop string, seed uint64, k int, thorough bool) *Trace {
+	rs := Mix(seed, uint64(k))
+	tr := GenTrace(prop, rs, thorough)
+	return tr
+}
+
+func specialDigests(args []string) int {
+	fs := flag.NewFlagSet("digests", flag.ExitOnError)
+	prop := fs.String("prop", "C13", "")
+	seed := fs.Uint64("seed", 1, "")
+	idx := fs.Int("idx", 0, "")
+	n := fs.Int("n", 1, "")
+	runs := fs.Int("runs", 100, "")
+	gcvar := fs.Int("gcvar", 0, "")
+	thorough := fs.Bool("thorough", false, "")
+	file := fs.String("file", "", "single trace file instead of generated runs")
+	deadline := fs.Int64("deadline", 0, "")
+	fs.Parse(args)
+	out := bufio.NewWriter(os.Stdout)
+	defer out.Flush()
+	one := func(k int, tr *Trace) {
+		applyGCVariant(tr, *gcvar)
+		v, e := RunTrace(tr, false)
+		l := digestLine{K: k, Seed: tr.Seed, D: e.ObsDigest(), Struct: e.St.LegalStruct, Steps: e.St.Steps,
+			GCs: e.St.Faults["gc-boundary"] + e.St.Faults["gc-midop"], Shape: e.S.W.VerifShape(), Targets: len(e.M.Targets)}
+		if v != nil {
+			l.Class = v.Class
+		}
+		_, e2 := RunTrace(tr, false)
+		l.D2 = e2.ObsDigest()
+		b, _ := json.Marshal(l)
+		out.Write(b)
+		out.WriteByte('\n')
+	}
+	if *file != "" {
+		b, err := os.ReadFile(*file)
+		if err != nil {
+			return 2
+		}
+		var tr Trace
+		if json.Unmarshal(b, &tr) != nil {
+			return 2
+		}
+		tr.Violation = nil
+		one(0, &tr)
+		return 0
+	}
+	for k := *idx; k < *runs; k += *n {
+		if *deadline > 0 && time.Now().Unix() >= *deadline {
+			break
+		}
+		one(k, traceFor(*prop, *seed, k, *thorough))
+	}
+	return 0
+}
+
+type procConfig struct {
+	Name   string
+	Env    []string
+	GCVar  int
+	Shards int
+}
+
+var c13Configs = []procConfig{
+	{"gomaxprocs1-nogc", []string{"GOMAXPROCS=1", "GOGC=100"}, 0, 4},
+	{"gomaxprocs4-gc-boundaries-gogc20", []string{"GOMAXPROCS=4", "GOGC=20"}, 1, 4},
+	{"gomaxprocs16-gc-midop-gogcoff", []string{"GOMAXPROCS=16", "GOGC=off"}, 2, 4},
+	{"gomaxprocs2-gc-heavy-gogc1", []string{"GOMAXPROCS=2", "GOGC=1"}, 3, 4},
+}
+
+func selfBin() string {
+	p, err := os.Executable()
+	if err != nil {
+		return "/verif/bin/archesim"
+	}
+	return p
+}
+
+func specialC13(args []string) int {
+	fs := flag.NewFlagSet("C13", flag.ExitOnError)
+	tier := fs.String("tier", "quick", "")
+	seed := fs.Uint64("seed", 1, "")
+	evidence := fs.String("evidence", "", "")
+	runs := fs.Int("runs", 0, "")
+	budget := fs.Int("budget", 0, "")
+	outdir := fs.String("out", "/verif/replays", "")
+	fs.Parse(args)
+	thorough := *tier == "thorough"
+	if *runs == 0 {
+		*runs = 3000
+		if thorough {
+			*runs = 150000
+		}
+	}
+	if *budget == 0 {
+		*budget = 45
+		if thorough {
+			*budget = 600
+		}
+	}
+	start := time.Now()
+	deadline := start.Add(time.Duration(*budget) * time.Second).Unix()
+	bin := selfBin()
+	type key struct{ cfg, k int }
+	var mu sync.Mutex
+	res := map[key]digestLine{}
+	var wg sync.WaitGroup
+	var procErr []string
+	for ci, cfg := range c13Configs {
+		for sh := 0; sh < cfg.Shards; sh++ {
+			wg.Add(1)
+			go func(ci int, cfg procConfig, sh int) {
+				defer wg.Done()
+				a := []string{"special", "digests", "-prop", "C13", "-seed", fmt.Sprint(*seed), "-idx", fmt.Sprint(sh), "-n", fmt.Sprint(cfg.Shards),
+					"-runs", fmt.Sprint(*runs), "-gcvar", fmt.Sprint(cfg.GCVar), "-deadline", fmt.Sprint(deadline)}
+				if thorough {
+					a = append(a, "-thorough")
+				}
+				cmd := exec.Command(bin, a...)
+				cmd.Env = append(os.Environ(), cfg.Env...)
+				out, err := cmd.Output()
+				if err != nil {
+					mu.Lock()
+					procErr = append(procErr, fmt.Sprintf("%s shard %d: %v", cfg.Name, sh, err))
+					mu.Unlock()
+				}
+				sc := bufio.NewScanner(strings.NewReader(string(out)))
+				sc.Buffer(make([]byte, 1<<20), 1<<26)
+				for sc.Scan() {
+					var l digestLine
+					if json.Unmarshal(sc.Bytes(), &l) == nil {
+						mu.Lock()
+						res[key{ci, l.K}] = l
+						mu.Unlock()
+					}
+				}
+			}(ci, cfg, sh)
+		}
+	}
+	wg.Wait()
+	wall := time.Since(start).Seconds()
+	// compare
+	complete := 0
+	distinct := map[uint64]struct{}{}
+	shapes := map[uint64]struct{}{}
+	gcs, steps, executions := 0, 0, 0
+	foreign := map[string]int{}
+	var bad []int
+	for k := 0; k < *runs; k++ {
+		var ds []digestLine
+		for ci := range c13Configs {
+			if l, ok := res[key{ci, k}]; ok {
+				ds = append(ds, l)
+			}
+		}
+		if len(ds) < len(c13Configs) {
+			continue // deadline cut this run short in some configuration
+		}
+		complete++
+		differ := false
+		for _, l := range ds {
+			executions += 2
+			gcs += l.GCs
+			steps += l.Steps
+			if l.D != ds[0].D || l.D2 != l.D {
+				differ = true
+			}
+			if l.Class != "" {
+				foreign[l.Class]++
+			}
+		}
+		if ds[0].Struct >= 3 {
+			distinct[ds[0].D] = struct{}{}
+		}
+		shapes[ds[0].Shape] = struct{}{}
+		if differ {
+			bad = append(bad, k)
+		}
+	}
+	exit := 0
+	nViol := 0
+	for i, k := range bad {
+		if i >= 3 {
+			break
+		}
+		tr := traceFor("C13", *seed, k, thorough)
+		tr.Property = "C13"
+		tr.Build = "special-C13"
+		var parts []string
+		for ci, cfg := range c13Configs {
+			l := res[key{ci, k}]
+			parts = append(parts, fmt.Sprintf("%s: %x/%x", cfg.Name, l.D, l.D2))
+		}
+		small := shrinkNondet(tr)
+		small.Violation = &Violation{Class: "nondeterminism", Msg: "digests of the same trace differ between executions: " + strings.Join(parts, "; ")}
+		os.MkdirAll(*outdir, 0o755)
+		path := filepath.Join(*outdir, fmt.Sprintf("C13-%d.json", tr.Seed))
+		b, _ := json.MarshalIndent(small, "", " ")
+		os.WriteFile(path, b, 0o644)
+		if replayC13(path, true) == 1 {
+			fmt.Printf("violation: class=nondeterminism seed=%d %s\n", tr.Seed, small.Violation.Msg)
+			fmt.Printf("VIOLATION property=C13 replay=%s\n", path)
+			nViol++
+			exit = 1
+		} else {
+			fmt.Fprintf(os.Stderr, "UNCONFIRMED: nondeterminism at run %d did not reproduce on replay\n", k)
+			if exit == 0 {
+				exit = 2
+			}
+		}
+	}
+	if len(procErr) > 0 {
+		for _, e := range procErr {
+			fmt.Fprintln(os.Stderr, "CRASH:", e)
+		}
+		if exit == 0 {
+			exit = 2
+		}
+	}
+	if complete == 0 && exit == 0 {
+		exit = 2
+	}
+	if *evidence != "" {
+		var cfgNames []string
+		for _, c := range c13Configs {
+			cfgNames = append(cfgNames, c.Name)
+		}
+		sample := map[string]interface{}{}
+		if complete > 0 {
+			tr := traceFor("C13", *seed, 0, thorough)
+			_, e := RunTrace(tr, true)
+			sample = map[string]interface{}{"seed": tr.Seed, "plan": tr.Plan, "ops": e.Concrete, "digest": fmt.Sprintf("%x", e.ObsDigest())}
+		}
+		ev := map[string]interface{}{
+			"property_id": "C13", "tier": *tier, "seed": *seed, "level": "exploration", "wall_s": wall, "violations": nViol,
+			"coverage": map[string]interface{}{
+				"evaluations":            complete,
+				"distinct_nontrivial":    len(distinct),
+				"rule":                   "one evaluation = one generated trace executed 2x in each of 4 process configurations (fresh OS processes: new hash seeds and addresses; GOMAXPROCS 1/4/16/2; GOGC 100/20/off/1; forced GC placement drawn from an independent stream per configuration: none / boundaries / mid-operation hook points / heavy) and the 8 observable digests compared; non-trivial = >=3 legal structural steps; distinct = distinct digests",
+				"samples":                []interface{}{sample},
+				"executions":             executions,
+				"simulated_steps":        steps,
+				"forced_gcs":             gcs,
+				"process_configs":        cfgNames,
+				"runs_per_hour":          float64(complete) / wall * 3600,
+				"distinct_hidden_states": len(shapes),
+				"foreign_trips":          foreign,
+				"digest_contents":        "per step: op, outcome, returned handle/count; full visiting order of every query (reference walks, all registered/unregistered filter slots, All()); every event with content in delivery order; final DumpEntities",
+				"real_components":        []string{"ecs", "filter", "listener"},
+				"stubbed_components":     []string{},
+			},
+			"assumptions": []string{"GC timing is varied by forcing full collections at operation boundaries and at hook points, plus GOGC settings; the collector's own concurrent schedule is not controlled"},
+		}
+		b, _ := json.MarshalIndent(ev, "", " ")
+		os.MkdirAll(filepath.Dir(*evidence), 0o755)
+		os.WriteFile(*evidence, b, 0o644)
+	}
+	fmt.Printf("C13 %s: %d traces x %d configurations x 2, %d differing, %.1fs\n", *tier, complete, len(c13Configs), len(bad), wall)
+	return exit
+}
+
+// shrinkNondet minimises a trace whose two in-process executions differ (map-order dependence shows up inside
+// one process already). If only cross-process executions differ the full trace is kept.
+func shrinkNondet(tr *Trace) *Trace {
+	differs := func(c *Trace) bool {
+		for rep := 0; rep < 6; rep++ {
+			_, e1 := RunTrace(c, false)
+			_, e2 := RunTrace(c, false)
+			if e1.ObsDigest() != e2.ObsDigest() {
+				return true
+			}
+		}
+		return false
+	}
+	if !differs(tr) {
+		return tr
+	}
+	cur := cloneTrace(tr)
+	dl := time.Now().Add(40 * time.Second)
+	for chunk := len(cur.Steps) / 2; chunk >= 1; chunk /= 2 {
+		for i := 0; i+chunk <= len(cur.Steps) && time.Now().Before(dl); {
+			c := cloneTrace(cur)
+			c.Steps = append(append([]Step{}, cur.Steps[:i]...), cur.Steps[i+chunk:]...)
+			if differs(c) {
+				cur = c
+			} else {
+				i += chunk
+			}
+		}
+	}
+	cur.Property, cur.Build = tr.Property, tr.Build
+	return cur
+}
+
+// replayC13 re-runs a recorded trace in 8 fresh processes x 2 in-process executions; reproduces if >= 2 digests differ.
+func replayC13(path string, quiet bool) int {
+	bin := selfBin()
+	digests := map[uint64]int{}
+	for i := 0; i < 8; i++ {
+		cfg := c13Configs[i%len(c13Configs)]
+		cmd := exec.Command(bin, "special", "digests", "-file", path, "-gcvar", fmt.Sprint(cfg.GCVar))
+		cmd.Env = append(os.Environ(), cfg.Env...)
+		out, err := cmd.Output()
+		if err != nil {
+			continue
+		}
+		var l digestLine
+		if json.Unmarshal([]byte(strings.TrimSpace(string(out))), &l) == nil {
+			digests[l.D]++
+			digests[l.D2]++
+		}
+	}
+	if !quiet {
+		fmt.Printf("replay: %d distinct digests over 16 executions: %v\n", len(digests), digests)
+	}
+	if len(digests) >= 2 {
+		fmt.Printf("VIOLATION property=C13 replay=%s\n", path)
+		return 1
+	}
+	if len(digests) == 0 {
+		return 2
+	}
+	fmt.Println("replay: all digests equal")
+	return 0
+}
+
 func ReplaySpecial(tr *Trace, quiet bool) int {
+	switch tr.Property {
+	case "C13":
+		f, _ := os.CreateTemp("", "c13-*.json")
+		b, _ := json.Marshal(tr)
+		f.Write(b)
+		f.Close()
+		defer os.Remove(f.Name())
+		return replayC13(f.Name(), quiet)
+	case "C19":
+		return replayC19(tr, quiet)
+	}
 	fmt.Fprintln(os.Stderr, "special replay not available for", tr.Property)
 	return 2
 }
 
-func specialDigest(args []string) int { return 2 }
+// ReplaySpecialFile replays files of the other special drivers (C14, C18).
+func ReplaySpecialFile(path, prop string, quiet bool) int {
+	switch prop {
+	case "C18":
+		return replayC18(path, quiet)
+	case "C14":
+		return replayC14(path, quiet)
+	}
+	fmt.Fprintln(os.Stderr, "no special replay for", prop)
+	return 2
+}
+
+func sortedKeys(m map[string]int) []string {
+	var l []string
+	for k := range m {
+		l = append(l, k)
+	}
+	sort.Strings(l)
+	return l
+}
